@@ -1023,6 +1023,9 @@ def c10(tier):
 
 
 # ------------------------------------------------------------------ C06 (executable half)
+PRE_PROGRAMS = ["+-", ">+-<", "<+-> ", ">>>+-<<<", "<<+->>+-", "+->+-<"]
+
+
 def c06_runs(tier, rep, bins):
     hv = bins["release"]
     per = {"T": 900, "S": 300, "N": 100, "rnd": 300, "M": 200, "W": 600, "K": 200} if tier == "quick" else \
@@ -1038,6 +1041,11 @@ def c06_runs(tier, rep, bins):
         # the budgeted entry point is bounds-checked as well (one guard side per case)
         side = "guardl" if sum(map(ord, c["id"])) % 2 else "guardr"
         runs += config_runs({"alloc": side, "mode": "limited", "budget": bf.UNLIMITED})
+        # a context that was used before: a program without I/O that leaves all cells 0 and the pointer in
+        # place has run on it, so the main program meets a small non-empty tape (growth on both sides at once)
+        pre = PRE_PROGRAMS[sum(map(ord, c["id"])) % len(PRE_PROGRAMS)]
+        for a in ("guardl", "guardr"):
+            runs += config_runs({"alloc": a, "pre": pre}, [("bcint", 0), ("bcint", 2), ("jit", 1), ("jit", 3), ("irint", 2)])
         return runs
 
     def runs_debug(c):      # the debug build differs in the bytecode interpreter's dispatch only
